@@ -40,7 +40,8 @@ def quiet_logging():
 
 
 def get_args_obs(argv):
-    """pypyr.cli.get_args -> {'usage': True} | {'ok': {...}}"""
+    """pypyr.cli.get_args -> {'usage': True} | {'exit0': True} | {'ok': {...}}
+    `dir` is None exactly when py_dir *is* the object config.cwd (the default of --dir)."""
     import pypyr.cli
     from pypyr.config import config
     buf = io.StringIO()
@@ -50,11 +51,53 @@ def get_args_obs(argv):
     except SystemExit as e:
         if e.code == 2:
             return {'usage': True}
+        if e.code in (0, None):
+            return {'exit0': True}
         return {'exit': e.code}
     d = a.py_dir
     return {'ok': {'name': a.pipeline_name, 'ctx': a.context_args, 'groups': a.groups,
                    'success': a.success_group, 'failure': a.failure_group,
-                   'dir': None if d == config.cwd else str(d), 'log': a.log_level, 'logpath': a.log_path}}
+                   'dir': None if d is config.cwd else (d if isinstance(d, str) else {'not-str': repr(d)}),
+                   'log': a.log_level, 'logpath': a.log_path}}
+
+
+def cwd_default_obs():
+    """The default of --dir: config.cwd, a module constant taken when pypyr.config was imported."""
+    import pypyr.cli
+    import pypyr.config
+    from pypyr.config import config
+    a = pypyr.cli.get_args(['pipe'])
+    here = os.getcwd()
+    tmp = tempfile.mkdtemp(prefix='c18cwd_')
+    try:
+        os.chdir(tmp)
+        b = pypyr.cli.get_args(['pipe'])
+    finally:
+        os.chdir(here)
+        shutil.rmtree(tmp, ignore_errors=True)
+    return {'is_config_cwd': a.py_dir is config.cwd, 'is_module_CWD': config.cwd is pypyr.config.CWD,
+            'same_after_chdir': b.py_dir is a.py_dir}
+
+
+def classify_obs(s):
+    """argparse's classification of one argv string (`ArgumentParser._parse_optional`) on pypyr's parser."""
+    import pypyr.cli
+    parser = pypyr.cli.get_parser()
+    buf = io.StringIO()
+    try:
+        with contextlib.redirect_stderr(buf), contextlib.redirect_stdout(buf):
+            t = parser._parse_optional(s)
+    except SystemExit as e:
+        return {'cls': 'ambiguous'} if e.code == 2 else {'cls': 'exit', 'code': e.code}
+    if t is None:
+        return {'cls': 'pos'}
+    action, option_string, explicit = t
+    if action is None:
+        return {'cls': 'unknown'}
+    # the single-dash chain of consume_optional: -hh, -h=h are more -h's
+    if option_string == '-h' and explicit and all(c == 'h' for c in explicit):
+        explicit = None
+    return {'cls': 'opt', 'opt': action.dest, 'explicit': explicit}
 
 
 class _Patched:
@@ -98,8 +141,9 @@ def main_call_obs(argv):
             with contextlib.redirect_stderr(buf), contextlib.redirect_stdout(buf):
                 ret = pypyr.cli.main(list(argv))
         except SystemExit as e:
-            return {'usage': True} if e.code == 2 else {'exit': e.code}
-        except (KeyboardInterrupt, Exception) as e:
+            return {'usage': True} if e.code == 2 else ({'exit0': True, 'called': bool(seen)} if e.code in (0, None)
+                                                        else {'exit': e.code})
+        except BaseException as e:  # noqa
             return {'uncaught': type(e).__name__}
     if not seen:
         return {'not_called': True, 'ret': ret}
@@ -107,7 +151,7 @@ def main_call_obs(argv):
     call = {'pipeline_name': seen.get('pipeline_name'), 'args_in': seen.get('args_in'),
             'parse_args': seen.get('parse_args'), 'groups': seen.get('groups'),
             'success_group': seen.get('success_group'), 'failure_group': seen.get('failure_group'),
-            'py_dir': None if d == config.cwd else str(d)}
+            'py_dir': None if d is config.cwd else str(d)}
     extra = sorted(set(seen) - set(call))
     if extra:
         call['extra_kwargs'] = extra
@@ -127,6 +171,15 @@ def make_exc(raised):
         return E.StopStepGroup()
     if k == 'keyboardInterrupt':
         return KeyboardInterrupt()
+    if k == 'systemExit':
+        c = raised['code']
+        if raised.get('bool'):
+            c = bool(c)
+        return SystemExit(c['text'] if isinstance(c, dict) else c)
+    if k == 'baseOther':
+        if raised['ty'] == 'GeneratorExit':
+            return GeneratorExit(raised['msg'])
+        return type(raised['ty'], (BaseException,), {})(raised['msg'])
     ty = raised['ty']
     import builtins
     cls = getattr(builtins, ty, None) or getattr(E, ty, None)
@@ -137,33 +190,54 @@ def make_exc(raised):
     return cls(raised['msg'])
 
 
+def _escaped(e):
+    if isinstance(e, KeyboardInterrupt):
+        return 'keyboardInterrupt'
+    if isinstance(e, SystemExit):
+        return 'systemExit'
+    if isinstance(e, Exception):
+        import pypyr.errors as E
+        return ('stopPipeline' if isinstance(e, E.StopPipeline) else 'stopStepGroup' if isinstance(e, E.StopStepGroup)
+                else 'stop' if isinstance(e, E.Stop) else 'error')
+    return 'baseOther'
+
+
+def _main_obs(argv, out, err, reached=None):
+    """Call cli.main(argv) and describe how it ended, in the vocabulary of the model's `Outcome`."""
+    import pypyr.cli
+    try:
+        with contextlib.redirect_stderr(err), contextlib.redirect_stdout(out):
+            ret = pypyr.cli.main(argv)
+    except BaseException as e:  # noqa - left main uncaught: the interpreter deals with it
+        o = {'outcome': 'escaped', 'escaped': _escaped(e), 'exc': type(e).__name__, 'stdout': out.getvalue(),
+             'stderr': err.getvalue()}
+        if isinstance(e, SystemExit):
+            o['code'] = e.code if (e.code is None or isinstance(e.code, int)) else {'text': str(e.code)}
+    else:
+        text = err.getvalue()
+        head, sep, _ = text.partition('Traceback (most recent call last)')
+        o = {'outcome': 'returned', 'ret': ret, 'stdout': out.getvalue(), 'stderr': head, 'main_traceback': bool(sep)}
+    if reached is not None:
+        o['reached'] = reached
+    return o
+
+
 def main_ladder_obs(raised, log_level=None):
     """cli.main when pipelinerunner.run raises the scripted exception."""
-    import pypyr.cli
     exc = make_exc(raised)
 
     def runner(**kw):
         if exc is not None:
             raise exc
-    out, err = io.StringIO(), io.StringIO()
     argv = ['pipe'] + (['--log', str(log_level)] if log_level is not None else [])
     with _Patched(runner):
-        try:
-            with contextlib.redirect_stderr(err), contextlib.redirect_stdout(out):
-                ret = pypyr.cli.main(argv)
-        except (KeyboardInterrupt, Exception) as e:
-            # left main uncaught: the interpreter would print a traceback; not a status of pypyr's choosing
-            return {'ret': 'uncaught:' + type(e).__name__, 'stdout': out.getvalue(), 'stderr': err.getvalue()}
-    return {'ret': ret, 'stdout': out.getvalue(), 'stderr': err.getvalue()}
+        return _main_obs(argv, io.StringIO(), io.StringIO())
 
 
 def main_phases_obs(faults, log_level=None):
     """cli.main when config.init() / set_root_logger(...) / what is below Pipeline.run raise the scripted
     exceptions (faults: {'config'|'logger'|'run': raised}). The runner is the real Pipeline.run around a
-    scripted load_and_run_pipeline, so a Stop-family signal in the run phase takes the real `except Stop`.
-    -> {'outcome': 'returned', 'ret', 'stdout', 'stderr', 'reached': [...]} |
-       {'outcome': 'escaped', 'exc': name, 'reached': [...]}  (the exception left main)"""
-    import pypyr.cli
+    scripted load_and_run_pipeline, so a Stop-family signal in the run phase takes the real `except Stop`."""
     from pypyr.pipeline import Pipeline
     from pypyr.context import Context
     reached = []
@@ -184,17 +258,9 @@ def main_phases_obs(faults, log_level=None):
             Pipeline(kw.get('pipeline_name', 'x')).run(Context())
         finally:
             Pipeline.load_and_run_pipeline = saved
-    out, err = io.StringIO(), io.StringIO()
     argv = ['pipe'] + (['--log', str(log_level)] if log_level is not None else [])
     with _Patched(runner, config_init=raiser('config'), set_root_logger=raiser('logger')):
-        try:
-            with contextlib.redirect_stderr(err), contextlib.redirect_stdout(out):
-                ret = pypyr.cli.main(argv)
-        except KeyboardInterrupt:
-            return {'outcome': 'escaped', 'exc': 'KeyboardInterrupt', 'reached': reached}
-        except Exception as e:
-            return {'outcome': 'escaped', 'exc': type(e).__name__, 'reached': reached}
-    return {'outcome': 'returned', 'ret': ret, 'stdout': out.getvalue(), 'stderr': err.getvalue(), 'reached': reached}
+        return _main_obs(argv, io.StringIO(), io.StringIO(), reached)
 
 
 def pipeline_run_obs(raised):
@@ -226,6 +292,10 @@ def pipeline_run_obs(raised):
         return 'stop'
     except Exception:
         return 'error'
+    except SystemExit:
+        return 'systemExit'
+    except BaseException:  # noqa
+        return 'baseOther'
 
 
 def parser_obs(parser, args):
@@ -249,6 +319,40 @@ def parser_obs(parser, args):
 def parse_input_obs(parse_args, args_in, dict_in):
     from pypyr.pipeline import Pipeline
     return bool(Pipeline._get_parse_input(parse_args=parse_args, args_in=args_in, dict_in=dict_in))
+
+
+def shortcut_obs(shortcuts, call):
+    """Pipeline.new_pipe_and_args under config.shortcuts = shortcuts (restored afterwards).
+    -> {'ok': {attributes of the new Pipeline + the returned dict}} | {'err': {'name', 'msg'}}"""
+    import copy
+    from pathlib import Path
+    from pypyr.config import config
+    from pypyr.pipeline import Pipeline
+    import pypyr.errors as E
+    saved = config.shortcuts
+    config.shortcuts = copy.deepcopy(shortcuts)
+    before = copy.deepcopy(config.shortcuts)
+    try:
+        try:
+            p, d = Pipeline.new_pipe_and_args(
+                name=call['name'], context_args=copy.deepcopy(call['context_args']), parse_input=call['parse_input'],
+                dict_in=copy.deepcopy(call['dict_in']), loader=call['loader'], groups=copy.deepcopy(call['groups']),
+                success_group=call['success_group'], failure_group=call['failure_group'], py_dir=call['py_dir'])
+        except E.ConfigError as e:
+            return {'err': {'name': common.exc_name(e), 'msg': str(e)}}
+        pd = p.py_dir
+        if isinstance(pd, Path):
+            pd = {'path': str(pd)}
+        else:
+            pd = {'caller': pd}
+        o = {'ok': {'name': p.name, 'context_args': p.context_args, 'parse_input': p.parse_input,
+                    'dict_in': None if d is None else common.enc(d), 'loader': p.loader, 'groups': p.groups,
+                    'success_group': p.success_group, 'failure_group': p.failure_group, 'py_dir': pd}}
+        if config.shortcuts != before:
+            o['config_mutated'] = True
+        return o
+    finally:
+        config.shortcuts = saved
 
 
 class ApiScratch:
